@@ -103,17 +103,25 @@ def theorem_names(props_file: str):
     return names
 
 
+def module_name(m: str) -> str:
+    return m if m.startswith('Hpl.') else f'Hpl.Props.{m}'
+
+
+def module_path(m: str) -> str:
+    return os.path.join(LEAN_DIR, *module_name(m).split('.')) + '.lean'
+
+
 def audit(prop_id: str, modules=None):
     """#print axioms on every theorem of Hpl/Props/<id>.lean; returns (obligations, discharged, report)"""
-    modules = modules or [prop_id]
+    modules = [module_name(m) for m in (modules or [prop_id])]
     names = []
     for m in modules:
-        names += theorem_names(os.path.join(LEAN_DIR, 'Hpl', 'Props', f'{m}.lean'))
+        names += theorem_names(module_path(m))
     os.makedirs(os.path.join(LEAN_DIR, '.lake', 'audit'), exist_ok=True)
     path = os.path.join(LEAN_DIR, '.lake', 'audit', f'{prop_id}.lean')
     with open(path, 'w', encoding='utf8') as f:
         for m in modules:
-            f.write(f'import Hpl.Props.{m}\n')
+            f.write(f'import {m}\n')
         for n in names:
             f.write(f'#print axioms {n}\n')
     rc, out = sh(['lake', 'env', 'lean', path], cwd=LEAN_DIR, timeout=1200)
